@@ -107,12 +107,14 @@ MinOfSet(S) == CHOOSE m \in S : \A x \in S : m <= x
 \* F: pure functions
 \* ===========================================================================
 Bit(n, k) == (n \div (2 ^ k)) % 2
-RECURSIVE ParBit(_, _, _)                     \* bit k of the XOR of key[1..n]
-ParBit(key, n, k) == IF n = 0 THEN 0 ELSE (Bit(key[n], k) + ParBit(key, n - 1, k)) % 2
-BucketHash(key, seed) ==
-  LET n == SMin(9, Len(key))
-      nb(j) == (ParBit(key, n, j) + ParBit(key, n, j + 4)) % 2      \* bit j of (x >> 4) ^ x
-  IN (nb(0) + 2 * nb(1) + 4 * nb(2) + 8 * nb(3) + seed) % 16
+\* XOR of two nibbles, as a table (a constant: TLC evaluates it once)
+NibXor == [a \in 0..15 |-> [b \in 0..15 |->
+             ((Bit(a, 0) + Bit(b, 0)) % 2) + 2 * ((Bit(a, 1) + Bit(b, 1)) % 2)
+             + 4 * ((Bit(a, 2) + Bit(b, 2)) % 2) + 8 * ((Bit(a, 3) + Bit(b, 3)) % 2)]]
+\* low nibble of (x >> 4) ^ x for x = XOR of key[1..n]: XOR is bitwise, so it is the XOR over the bytes of (high nibble ^ low nibble)
+RECURSIVE FoldNib(_, _)
+FoldNib(key, n) == IF n = 0 THEN 0 ELSE NibXor[FoldNib(key, n - 1)][NibXor[key[n] \div 16][key[n] % 16]]
+BucketHash(key, seed) == (FoldNib(key, SMin(9, Len(key))) + seed) % 16
 
 \* a header block as the driver logs it: the first 9 bytes of the 16 keys, in bucket order
 HeaderOK(keys) == Len(keys) = 16 /\ \A b \in 0..15 : BucketHash(keys[b + 1], 1) = b
